@@ -483,7 +483,14 @@ Proof.
   intros [R1 R2 R3 R4 R5 R6 R7 R8 R9 R10 R11] [H1 H2 H3 H4 H5 H6 H7 H8 H9 [k [H10 H10']] H11].
   exists (repeat NStopping k). split; [rewrite rev_repeat; exact H10|].
   split; [apply mon_feed_stopping; assumption|].
-  constructor; try assumption; try congruence.
+  constructor.
+  - exact R1.
+  - exact R2.
+  - exact R3.
+  - exact R4.
+  - exact R5.
+  - rewrite H2. exact R6.
+  - rewrite H3. exact R7.
   - rewrite H4. exact R8.
   - rewrite H1. exact R9.
   - rewrite H1. apply H11. exact R10.
